@@ -310,7 +310,7 @@ def _plain(x):
     return repr(x)
 
 
-def run_view_enum(module, name, params, hcfg, func, bound, n_additive=None, max_leaves=400000, max_syms=40, err_limit=None):
+def run_view_enum(module, name, params, hcfg, func, bound, n_additive=None, max_leaves=400000, max_syms=40, err_limit=None, ideal=None):
     """Exhaustive: every assignment of the secret inputs and of ALL randomness symbols (depth-first over the tree of executions, so
     data-dependent randomness is handled) through the real code; per secret input the exact distribution of the view
     (every value opened inside the protocol + every public zero-test bit).  For all pairs of secret inputs with the same output the
@@ -374,7 +374,11 @@ def run_view_enum(module, name, params, hcfg, func, bound, n_additive=None, max_
     # output counts as THE output, the mass of the other executions must stay below err_limit (default 2^-k)
     by_out = {}
     err_limit = Fraction(1, 1 << k) if err_limit is None else Fraction(err_limit)
+    ideal_f = getattr(importlib.import_module(module), ideal) if ideal else None
     for sec, d in dist.items():
+        if ideal_f is not None:
+            # probabilistic protocols (error probability 2^-k by design): inputs are grouped by the IDEAL output, the computed one is not used
+            by_out.setdefault(ideal_f(dict(sec)), []).append(sec); continue
         mass = {}
         for (v, ov), pr in d.items(): mass[ov] = mass.get(ov, 0) + pr
         best = max(mass, key=lambda ov: mass[ov])
@@ -394,14 +398,14 @@ def run_view_enum(module, name, params, hcfg, func, bound, n_additive=None, max_
     o.detail = (f'{leaves} executions, {len(dist)} secret inputs, {len(by_out)} distinct outputs; largest statistical distance between the views of two inputs '
                 f'with the same output: {float(worst[0]):.4f} (limit {float(limit):.4f} = {nadd} additive opening(s) x 2 x 2^-{k}); truncated mass per input <= {float(max(truncated.values(), default=0)):.4f}')
     tr = max(truncated.values(), default=Fraction(0))
-    limit += 2 * tr + 2 * err_limit * (1 if any(len({vo[1] for vo in d}) > 1 for d in dist.values()) else 0)
+    limit += 2 * tr + 2 * err_limit * (1 if (ideal_f is None and any(len({vo[1] for vo in d}) > 1 for d in dist.values())) else 0)
     if worst[0] > limit:
         s1, s2, outv = worst[1]
         o.status = 'refuted'
         o.detail = f'inputs {dict(s1)} and {dict(s2)} give the same output {outv} but the views of the parties differ with statistical distance {float(worst[0]):.4f} > {float(limit):.4f}; ' + o.detail
         code = (f"import sys; sys.argv=['replay','--no-log']; sys.path.insert(0, {__import__('lib.common').common.ROOT!r})\n"
                 f"from sx.leak import run_view_enum\n"
-                f"o = run_view_enum({module!r}, {name!r}, {dict(params)!r}, {dict(hcfg)!r}, {func!r}, {bound!r}, {n_additive!r}, {max_leaves!r}, {max_syms!r})[0]\n"
+                f"o = run_view_enum({module!r}, {name!r}, {dict(params)!r}, {dict(hcfg)!r}, {func!r}, {bound!r}, {n_additive!r}, {max_leaves!r}, {max_syms!r}, {(float(err_limit) if err_limit is not None else None)!r}, {ideal!r})[0]\n"
                 f"print(o.status, o.detail)\nsys.exit(1 if o.status == 'refuted' else 0)\n")
         o.witness = dict(key=f'{func}:views:{name}:distance', text=o.detail, replay=code)
     return [o]
@@ -431,3 +435,25 @@ def inst_izp(H, kind, l=3, p=11, which='is_zero_public'):
 
 
 INSTANCES['izp'] = inst_izp
+
+
+def inst_is_zero_nishide(H, l=2, p=43):
+    """the probabilistic zero test Runtime._is_zero (used by is_zero for bit_length > 2k, k >= 8, Blum prime) called directly on a tiny Blum-prime field"""
+    mpc = H.rt
+    st = mpc.SecInt(l, p)
+    H.register_field(st.field)
+
+    def build():
+        x, a = H.secret(st, 'a', -(1 << (l - 1)), 1 << (l - 1))
+        return H.open(mpc._is_zero(x)), a
+
+    def check(o, a):
+        return []
+    return build, check
+
+
+INSTANCES['is_zero_nishide'] = inst_is_zero_nishide
+
+
+def ideal_is_zero(sec):
+    return int(all(v == 0 for v in sec.values()))
